@@ -355,6 +355,6 @@ func runC01(w *core.W) {
 	for i, n := 0, w.Pick(4000, 60000); i < n; i++ {
 		t := ref.Parenthesize(cfg.Node(r, 6))
 		f := ref.Flatten(t)
-		run("prog", []byte(ref.JoinLexemes(f.Lex, gen.Layout(r, f, r.Intn(3)))), "prog_cases")
+		run("prog", []byte(ref.JoinLexemes(f.Lex, gen.Layout(r, f, r.Intn(4)))), "prog_cases")
 	}
 }
